@@ -179,6 +179,11 @@ BENIGN = [
  ('genpow_barrier_order_swapped', R + 'core/cones/genpowcone.rs', '        work.waxpby(T::one(), s, α, ds);\n        barrier += self.barrier_primal(&work);\n\n        work.waxpby(T::one(), z, α, dz);\n        barrier += self.barrier_dual(&work);', '        work.waxpby(T::one(), z, α, dz);\n        barrier += self.barrier_dual(&work);\n\n        work.waxpby(α, ds, T::one(), s);\n        barrier += self.barrier_primal(&work);'),
  ('soc_rectify_mean_local', R + 'core/cones/socone.rs', '        δ.copy_from(e).recip().scale(e.mean());\n\n        true // scalar equilibration', '        let mean = e.mean();\n        δ.copy_from(e);\n        δ.recip();\n        δ.scale(mean);\n\n        true // scalar equilibration'),
  ('exp_rectify_scalarop', R + 'core/cones/expcone.rs', '        δ.copy_from(e).recip().scale(e.mean());\n        true // scalar equilibration', '        let mean = e.mean();\n        δ.scalarop_from(|ei| mean / ei, e);\n        true // scalar equilibration'),
+ ('chordal_reverse_standard_z_first', 'src/solver/chordal/decomp/reverse_standard.rs', '        H.gemv(&mut new_vars.s, &old_vars.s[m..], T::one(), T::zero());\n        H.gemv(&mut new_vars.z, &old_vars.z[m..], T::one(), T::zero());', '        H.gemv(&mut new_vars.z, &old_vars.z[m..], T::one(), T::zero());\n        H.gemv(&mut new_vars.s, &old_vars.s[m..], T::one(), T::zero());'),
+ ('chordal_reverse_standard_div_form', 'src/solver/chordal/decomp/reverse_standard.rs', '            new_vars.z[ri] /= nnz;', '            new_vars.z[ri] = new_vars.z[ri] / nnz;'),
+ ('chordal_reverse_compact_is_some_first', 'src/solver/chordal/decomp/reverse_compact.rs', '            if cone_map.tree_and_clique.is_none() {\n                row_ptr =\n                    add_blocks_with_cone(new_s, old_s, new_z, old_z, row_range, cone, row_ptr);\n            } else {', '            if let Some((tree_index, clique_index)) = cone_map.tree_and_clique {\n                let pattern = &self.spatterns[tree_index];\n                row_ptr = add_blocks_with_sparsity_pattern(\n                    new_s,\n                    old_s,\n                    new_z,\n                    old_z,\n                    row_range,\n                    pattern,\n                    clique_index,\n                    &mut clique_buffer,\n                    row_ptr,\n                );\n            } else if true {\n                row_ptr =\n                    add_blocks_with_cone(new_s, old_s, new_z, old_z, row_range, cone, row_ptr);\n            } else {'),
+ ('chordal_analyse_dense_any_form', 'src/solver/chordal/chordal_info.rs', '        if nz_mask.iter().all(|x| *x) {\n            return; //dense / decomposable\n        }', '        if !nz_mask.iter().any(|x| !*x) {\n            return; //dense / decomposable\n        }'),
+ ('chordal_analyse_single_clique_le', 'src/solver/chordal/chordal_info.rs', '        if spattern.sntree.n_cliques == 1 {\n            return; // not decomposed, or everything re-merged\n        }\n\n        self.spatterns.push(spattern);', '        if spattern.sntree.n_cliques != 1 {\n            self.spatterns.push(spattern);\n        }'),
 ]
 
 
